@@ -150,14 +150,30 @@ def lake_build(targets):
     return rc == 0, out
 
 
+def import_closure(modules):
+    """Lean files of this project reachable from the given modules through `import PyModeS…` / `import Driver…`"""
+    seen, todo = set(), list(modules)
+    while todo:
+        m = todo.pop()
+        if m in seen:
+            continue
+        p = os.path.join(LEAN, m.replace(".", "/") + ".lean")
+        if not os.path.exists(p):
+            continue
+        seen.add(m)
+        for line in open(p):
+            mo = re.match(r"^\s*import\s+((?:PyModeS|Driver)[\w.]*)", line)
+            if mo:
+                todo.append(mo.group(1))
+    return sorted(seen)
+
+
 def grep_forbidden(modules):
-    """source-level audit of the Lean files of the given modules (and everything under PyModeS/)"""
+    """source-level audit of every project file the property modules (and the driver) depend on"""
     hits = []
-    for root, _, files in os.walk(os.path.join(LEAN, "PyModeS")):
-        for fn in files:
-            if not fn.endswith(".lean"):
-                continue
-            p = os.path.join(root, fn)
+    for m in import_closure(list(modules) + ["Driver.Main"]):
+        p = os.path.join(LEAN, m.replace(".", "/") + ".lean")
+        if True:
             incomment = 0
             for ln, line in enumerate(open(p), 1):
                 s = line
